@@ -490,6 +490,9 @@ class AEval(dtable.Eval):
                 if a[0] in ("int", "char") and b[0] in ("int", "char"):
                     x, y = a[1], b[1]
                     return B({"<": x < y, "<=": x <= y, ">": x > y, ">=": x >= y}[op])
+                if a[0] == "str" and b[0] == "str":
+                    x, y = a[1], b[1]          # (code-point order = UTF-8 byte order)
+                    return B({"<": x < y, "<=": x <= y, ">": x > y, ">=": x >= y}[op])
                 raise Unknown("ordering of non numbers")
             if op in ("+", "-") and a[0] == "int" and b[0] == "int":
                 return I(a[1] + b[1] if op == "+" else a[1] - b[1])
@@ -1509,6 +1512,8 @@ class AEval(dtable.Eval):
                 return args[0]
             if last == "take" and f["path"].endswith("mem::take") and len(args) == 1:
                 return args[0]
+            if f["path"] in ("std::ops::Not::not", "core::ops::Not::not", "Not::not", "bool::not") and len(args) == 1 and args[0][0] == "bool":
+                return B(not args[0][1])
             if last in ("call_site", "mixed_site") and not args and len(segs) >= 2 and segs[-2] == "Span":
                 return A("span")
             if last in ("new", "new_raw") and len(args) == 2 and len(segs) >= 2 and segs[-2] == "Ident" and args[0][0] == "str" and args[1] == A("span") \
@@ -1956,6 +1961,8 @@ class AEval(dtable.Eval):
             v = self.call_fn(m, [r] + args)
             self._write_back([rnode] + list(e["args"]), env)
             return v
+        if m in ("iter", "into_iter") and not args and r[0] == "ctor" and r[1] in ("Some", "None") and len(r[2]) <= 1 and m not in self.builtins and not isinstance(r, (EntryRef, FalseOrNone)):
+            return L(*r[2][:1])          # an Option iterates over its payload: from here on it is a sequence of 0 or 1 items
         if m in ("iter", "iter_mut", "into_iter", "as_slice", "as_mut_slice", "as_ref", "as_mut", "as_deref_mut", "by_ref", "deref", "deref_mut", "borrow", "borrow_mut", "get_mut", "clone", "cloned", "copied", "to_owned",
                  "into", "collect", "to_token_stream", "as_deref", "peekable", "to_vec", "values") and not args:
             if m == "values" and r[0] == "list":
